@@ -126,6 +126,8 @@ impl ArcConnState {
 
     pub fn enter_handshaked(&self) -> Option<QlogConnectionState> {
         if let Some(old_state) = self.update(GranularConnectionStates::HandshakeConfirmed.into()) {
+            #[cfg(genmeta_gm_quic_verif)]
+            qbase::verif::sched_point("ArcConnState::enter_handshaked:between-cas-and-set");
             self.handshaked.set(()).expect("Handshaked already set");
             return Some(old_state);
         }
@@ -134,6 +136,8 @@ impl ArcConnState {
 
     pub fn enter_closing(&self, error: &(impl Into<Error> + Clone)) -> Option<QlogConnectionState> {
         if let Some(old_state) = self.update(GranularConnectionStates::Closing.into()) {
+            #[cfg(genmeta_gm_quic_verif)]
+            qbase::verif::sched_point("ArcConnState::enter_closing:between-cas-and-set");
             self.terminated
                 .set(error.clone().into())
                 .expect("Terminated error already set");
@@ -144,6 +148,8 @@ impl ArcConnState {
 
     pub fn enter_draining(&self, ccf: &ConnectionCloseFrame) -> Option<QlogConnectionState> {
         if let Some(old_state) = self.update(GranularConnectionStates::Draining.into()) {
+            #[cfg(genmeta_gm_quic_verif)]
+            qbase::verif::sched_point("ArcConnState::enter_draining:between-cas-and-set");
             if old_state != QlogConnectionState::Granular(GranularConnectionStates::Closing) {
                 self.terminated
                     .set(ccf.clone().into())
